@@ -59,6 +59,7 @@ CAT = [
      {"table_properties": {"max_data_extension_time_in_days": "7"}}],
     ["snowflake", "WITH TAG (t1='v1')", {"with_tag": "t1='v1'"}, {"table_properties": {"with_tag": "t1='v1'"}}],
     ["mssql", "ON [PRIMARY]", {"on": "[PRIMARY]"}, {"table_properties": {"on": "[PRIMARY]"}}],
+    ["mssql", "ON [FG2]", {"on": "[FG2]"}, {"table_properties": {"on": "[FG2]"}}],
     ["mssql", "TEXTIMAGE_ON [PRIMARY]", {"textimage_on": "[PRIMARY]"}, {"table_properties": {"textimage_on": "[PRIMARY]"}}],
     ["mssql", "WITH (DATA_COMPRESSION = PAGE)", {"with": {"properties": [{"name": "DATA_COMPRESSION", "value": "PAGE"}], "on": None}},
      {"table_properties": {"with": {"properties": [{"name": "DATA_COMPRESSION", "value": "PAGE"}], "on": None}}}],
@@ -118,6 +119,8 @@ BODIES = {
     "ref": "CREATE TABLE s.t (a int, b varchar(10), dt int REFERENCES o(x))",
     "deffn": "CREATE TABLE s.t (a int, b varchar(10), dt timestamp DEFAULT now())",
     "ine": "CREATE TABLE IF NOT EXISTS t (a int, b varchar(10), dt date)",
+    # the last body item is a SQL Server constraint with its own WITH (...) ON [filegroup]: table-level clauses come after it
+    "pkon": "CREATE TABLE s.t (a int, b varchar(10), dt date, CONSTRAINT pk1 PRIMARY KEY CLUSTERED (a ASC) WITH (PAD_INDEX = OFF) ON [FG1])",
 }
 COMMON = ["table_name", "schema", "dataset", "primary_key", "columns", "alter", "checks", "index", "constraints"]
 COMBO_BODIES = ["plain", "defs", "pktab"]
@@ -201,6 +204,18 @@ def features(case):
     return f
 
 
+def _delta(t, b):
+    """what the clause(s) added to or changed in the clause-free table b (table_properties compared entry by entry)"""
+    got = {}
+    for k, v in t.items():
+        if b.get(k, "__missing__") != v:
+            if k == "table_properties" and isinstance(v, dict) and isinstance(b.get(k), dict):
+                got[k] = {kk: vv for kk, vv in v.items() if b[k].get(kk, "__missing__") != vv}
+            else:
+                got[k] = v
+    return got
+
+
 def _two(case):
     m = case["mode"]
     r = run_ddl(build(case), None, {"output_mode": m})
@@ -213,7 +228,7 @@ def _two(case):
         b = run_ddl(body + ";", None, {"output_mode": m})[1][0]
         t = r[1][n]
         want = CAT[ci][2] if m == CAT[ci][0] else CAT[ci][3]
-        got = {k: v for k, v in t.items() if b.get(k, "__missing__") != v}
+        got = _delta(t, b)
         if got != want:
             D.append(diff("table %d of the script: clause delta (mode %s)" % (n + 1, m), "clause-value-differs-in-two-table-script", short(want, 200), short(got, 200)))
     return {"diffs": D, "nontrivial": True, "outcome": "two:%s" % m}
@@ -237,10 +252,7 @@ def evaluate(case):
         if t.get(k, "<absent>") != b.get(k, "<absent>"):
             D.append(diff("body field %s" % k, "body-changed", short(b.get(k, "<absent>"), 200), short(t.get(k, "<absent>"), 200)))
     want = merge([CAT[i][2] if m == CAT[i][0] else CAT[i][3] for i in case["clauses"]])
-    got = {}
-    for k, v in t.items():
-        if b.get(k, "__missing__") != v:
-            got[k] = v
+    got = _delta(t, b)
     # table_properties of the clause-free body are empty/absent for these bodies; compare the delta
     if got != want:
         keys = sorted(set(got) | set(want))
